@@ -33,7 +33,7 @@ PROP = {
         inst(F, "c04_b1_seekback_lm10_x0", T, "low mark 10, capacity 18", "B1e backward seek after fill", covers=2, timeout=3000, cost=150),
         inst(F, "c04_b1_seek_lm10_x0", T, "low mark 10, capacity 18", "B1d seek", covers=2, timeout=3000, cost=150),
         inst("dlt_frame", "c04_b2_view_serial_26", Q, "any 26 B buffer starting with the marker, two views >= frame + 4", "B2 view independence (serial parser)", covers=2, timeout=2400, mem_gb=24),
-        inst("dlt_frame", "c04_b2_view_storage_36", T, "any 36 B buffer starting with the marker, two views >= frame + 4", "B2 view independence (storage parser)", covers=2, timeout=3300, mem_gb=24),
+        inst("dlt_frame", "c04_b2_view_storage_36", Q, "any 36 B buffer starting with the marker, two views >= frame + 4", "B2 view independence (storage parser)", covers=2, timeout=3300, mem_gb=24),
         inst("lowmark_sites", "c04_b3_low_mark_covers_lookahead", Q, "call sites in convert.rs and remote.rs", "B3 low mark >= largest message + 4", covers=1),
     ],
 }
